@@ -1,6 +1,6 @@
 //! C13 — covariance and correlation are those of the full parameter vector (c, α)
 
-use crate::la::{self, Mat};
+use crate::la::Mat;
 use crate::problem::*;
 use crate::rng::Rng;
 use crate::run::*;
@@ -19,7 +19,7 @@ fn ulps<T: Sc>(a: f64, b: f64) -> f64 {
 
 fn case_t<T: Sc>(rng: &mut Rng, case: u64, out: &mut CaseOut) {
     let stream = "fits";
-    let Some((spec, class)) = gen_stat_spec(rng) else {
+    let Some((spec, class)) = gen_stat_spec(rng, T::IS_F64) else {
         out.inconcl("shape not constructible");
         return;
     };
@@ -102,17 +102,22 @@ fn case_t<T: Sc>(rng: &mut Rng, case: u64, out: &mut CaseOut) {
         out.inconcl("non-finite model Jacobian");
         return;
     }
-    let hth = h.tmul(&h);
-    let (ev, _) = la::sym_eig(&hth);
-    let lmax = ev.iter().cloned().fold(f64::MIN, f64::max);
-    let lmin = ev.iter().cloned().fold(f64::MAX, f64::min);
-    if !(lmin > 0.0) || (lmax / lmin) * T::EPS > 1e-3 {
+    let Some((d, g, kappa)) = scaled_normal_matrix(&h) else {
+        out.inconcl("normal matrix not numerically positive definite (value oracles skipped; sign/range/slicing still checked)");
+        return;
+    };
+    if kappa * T::EPS > 1e-3 {
         out.inconcl("normal matrix not numerically positive definite (value oracles skipped; sign/range/slicing still checked)");
         return;
     }
-    let kappa = lmax / lmin;
     let sigma2 = sf.stats.reduced_chi2().w();
-    let prod = cov.mul(&hth);
+    // column-equilibrated form of Cov·(H^T H) = sigma^2 I:  (D Cov D)·G = sigma^2 I
+    let cov_s = Mat::from_fn(k, k, |i, j| d[i] * cov.at(i, j) * d[j]);
+    if !cov_s.all_finite() || !(sigma2.is_finite()) {
+        out.inconcl("scaled covariance not representable");
+        return;
+    }
+    let prod = cov_s.mul(&g);
     let mut worst: f64 = 0.0;
     for i in 0..k {
         for j in 0..k {
@@ -124,24 +129,24 @@ fn case_t<T: Sc>(rng: &mut Rng, case: u64, out: &mut CaseOut) {
     out.count("value_oracle_evaluated");
     out.ratio("cov_times_normal_matrix", worst / tol.max(f64::MIN_POSITIVE));
     if sigma2 > 0.0 && worst > tol {
-        violation(out, stream, case, format!("Cov·(H^T H) differs from sigma^2·I by {worst:e} (tolerance {tol:e}, kappa(H^T H)={kappa:.2e}, sigma^2={sigma2:e}): covariance is not sigma^2 (H^T H)^-1 in the order (c, alpha)"), detail(json!({"HtH": hth.d, "sigma2": sigma2})));
+        violation(out, stream, case, format!("(D·Cov·D)·G differs from sigma^2·I by {worst:e} (tolerance {tol:e}, scaled kappa={kappa:.2e}, sigma^2={sigma2:e}; D = column norms of H, G = scaled H^T H): covariance is not sigma^2 (H^T H)^-1 in the order (c, alpha)"), detail(json!({"column_norms_of_H": d, "sigma2": sigma2})));
         return;
     }
-    // symmetry
+    // symmetry (in the scaled form, so that entries of very different units are comparable)
     let mut asym: f64 = 0.0;
     for i in 0..k {
         for j in 0..i {
-            asym = asym.max((cov.at(i, j) - cov.at(j, i)).abs());
+            asym = asym.max((cov_s.at(i, j) - cov_s.at(j, i)).abs());
         }
     }
-    let tol_s = TAU_COV * T::EPS * kappa * cov.max_abs();
+    let tol_s = TAU_COV * T::EPS * kappa * cov_s.max_abs();
     out.ratio("asymmetry", asym / tol_s.max(f64::MIN_POSITIVE));
     if asym > tol_s {
-        violation(out, stream, case, format!("covariance is not symmetric: max |C_ij - C_ji| = {asym:e} (tolerance {tol_s:e})"), detail(json!(null)));
+        violation(out, stream, case, format!("covariance is not symmetric: max scaled |C_ij - C_ji| = {asym:e} (tolerance {tol_s:e})"), detail(json!(null)));
         return;
     }
     if case < 3 {
-        out.sample(json!({"class": class, "M": sf.m, "P": sf.p, "N": sf.n, "kappa_HtH": kappa, "covariance_diagonal": (0..k).map(|i| cov.at(i, i)).collect::<Vec<_>>()}));
+        out.sample(json!({"class": class, "M": sf.m, "P": sf.p, "N": sf.n, "scaled_kappa_HtH": kappa, "covariance_diagonal": (0..k).map(|i| cov.at(i, i)).collect::<Vec<_>>()}));
     }
     let _ = (bits_of(&cov_t), Mat::zeros(0, 0));
 }
